@@ -155,7 +155,7 @@ func OpenReadWriteFile(f *os.File, roots []cid.Cid, opts ...carv2.Option) (*Read
 		if _, err = f.Seek(0, io.SeekStart); err != nil {
 			return nil, err
 		}
-		if err = store.ResumableVersion(f, rwbs.opts.WriteAsCarV1); err != nil {
+		if err = store.ResumableVersion(f, rwbs.opts.WriteAsCarV1, carv2.MaxAllowedHeaderSize(rwbs.opts.MaxAllowedHeaderSize)); err != nil {
 			return nil, err
 		}
 		if err = store.Resume(
